@@ -615,3 +615,126 @@ class Analysis:
                 elif op == ">=":
                     ge(f, math.floor(kk) + 1)
         return t, f
+
+
+# ---------------------------------------------------------------------------
+class CounterAnalysis(Analysis):
+    """the same abstract interpreter on the *counter program* extracted from path effects (verifier/c05sem.counter_program):
+         ('acc', array, index Aff, 'r'|'w')   obligation 0 <= index <= len(array) - 1 in the state at the head of the path
+         ('rows', n, nfull)                   n output rows are written (capacity obligation), nfull of them with count 1
+         ('pset', [(var, Aff), ...])          simultaneous assignment, right-hand sides in terms of the state at the head of the path
+         ('if', ('nd',) | ('cmpaff', op, Aff), then, else), ('break',), ('unreachable',)
+         ('for', var, lo Aff, hi Aff, body), ('while', ('cmpaff', op, Aff), body)"""
+
+    def __init__(self, arrays, index_vars, out_cap, rows="rows", fullrows="fullrows"):
+        super().__init__(arrays, index_vars, rows, fullrows)
+        self.out_cap = out_cap        # capacity (rows) of every output array that is written in lock-step
+
+    def stmt(self, s, st):
+        bot = State(bottom=True)
+        if st.bottom:
+            return st, bot
+        k = s[0]
+        if k == "acc":
+            _, arr, ix, rw = s
+            if arr in self.arrays:
+                what = "read" if rw == "r" else "write"
+                self._note(f"{what} {arr}[{ix}]: 0 <= {ix}", st.prove_nonneg(ix), st)
+                self._note(f"{what} {arr}[{ix}]: {ix} <= {self.arrays[arr] - 1}", st.prove_nonneg(self.arrays[arr] - ix - 1), st)
+            return st, bot
+        if k == "rows":
+            _, n, nfull = s
+            rows = V(self.rows)
+            self._note(f"rows {rows} .. {rows + (n - 1)} written: {rows + (n - 1)} <= {self.out_cap - 1} (capacity of every output array)",
+                       st.prove_nonneg(self.out_cap - rows - n), st)
+            st = st.copy()
+            st.assign(self.rows, rows + n)
+            if nfull:
+                st.assign(self.fullrows, V(self.fullrows) + nfull)
+            return st, bot
+        if k == "pset":
+            st = st.copy()
+            tmp = []
+            for i, (v, a) in enumerate(s[1]):
+                t = f"__p{i}"
+                st.assign(t, a)
+                tmp.append((v, t))
+            for v, t in tmp:
+                st.assign(v, V(t))
+            for _, t in tmp:
+                st.forget(t)
+            return st, bot
+        if k == "unreachable":
+            return bot, bot
+        if k == "if":
+            t, f = self.guard(s[1], st)
+            st1, b1 = self.block(s[2], t)
+            st2, b2 = self.block(s[3], f)
+            return st1.join(st2), b1.join(b2)
+        if k == "for":
+            # reuse the parent's machinery through IR-shaped expressions
+            return self._for_aff(s, st)
+        return super().stmt(s, st)
+
+    def _for_aff(self, s, st):
+        bot = State(bottom=True)
+        var, lo, hi, body = s[1], s[2], s[3], s[4]
+        st = self.saturate(st.copy())
+        st.assign(var, lo)
+        init = st
+        rec, self.record = self.record, False
+        head = init
+        try:
+            for it in range(60):
+                nxt = self._for_body(body, head, var, hi)
+                new_head = self._widen(head, init.join(nxt), it)
+                if new_head.leq(head) and head.leq(new_head):
+                    break
+                head = new_head
+            else:
+                raise Unsupported("for loop did not stabilise")
+        finally:
+            self.record = rec
+        nxt = self._for_body(body, head, var, hi)
+        if self.record:
+            self.heads.append((f"for {var} in {lo}..{hi}", head))
+        e0 = init.copy()
+        if e0.prove_nonneg(hi - V(var) - 1):
+            e0 = State(bottom=True)
+        else:
+            e0.assume_nonneg(V(var) - hi)
+        e1 = nxt.copy()
+        e1.add_eq(V(var) - hi)
+        return e0.join(e1), bot
+
+    def guard(self, c, st):
+        t, f = st.copy(), st.copy()
+        if c[0] == "nd":
+            return t, f
+        if c[0] != "cmpaff":
+            return super().guard(c, st)
+        op, d = c[1], c[2]          # d <op> 0
+        import math
+        if op == "==":
+            t.add_eq(d)
+        elif op == "!=":
+            f.add_eq(d)
+        if len(d.c) == 1:
+            (v, x), = d.c.items()
+            kk = -d.k / x
+
+            def ge(state, bound):
+                state.lb[v] = max(state.lb.get(v, bound), bound)
+            pos = x > 0
+            if op in (">", ">=", "<", "<="):
+                strict = op in (">", "<")
+                is_gt = (op in (">", ">=")) == pos          # v > kk / v >= kk   (after dividing by x)
+                if is_gt:
+                    ge(t, math.floor(kk) + 1 if strict else math.ceil(kk))
+                else:
+                    ge(f, math.ceil(kk) if strict else math.floor(kk) + 1)
+            elif op == "==" and kk.denominator == 1:
+                ge(t, int(kk))
+        for stt in (t, f):
+            stt._check_feasible()
+        return t, f
